@@ -5,6 +5,8 @@ package c11
 
 import (
 	"fmt"
+	"strings"
+	"sync"
 
 	sentinel "github.com/alibaba/sentinel-golang/api"
 	"github.com/alibaba/sentinel-golang/core/base"
@@ -19,6 +21,7 @@ const res = "c11-res"
 type Interp struct {
 	clk    *vh.Clock
 	loaded bool
+	soakN  int
 }
 
 func New() vh.Interp {
@@ -33,6 +36,7 @@ func (it *Interp) Reset() {
 	stat.ResetResourceNodeMap()
 	system_metric.SetSystemMemoryUsage(system_metric.NotRetrievedMemoryValue)
 	it.loaded = false
+	it.clk.Sleeps = nil
 }
 
 func (it *Interp) load(r *flow.Rule) string {
@@ -44,8 +48,90 @@ func (it *Interp) load(r *flow.Rule) string {
 	return fmt.Sprintf("ok %d", len(flow.GetRulesOfResource(res)))
 }
 
+// soak: sequential single-token requests against a MemoryAdaptive+Reject rule (1 s window, clock frozen) while `flippers`
+// goroutines keep overwriting the memory gauge with readings between the water marks, far below the low and far above
+// the high one. Whatever reading a request sees, the threshold is within [highT, lowT], so at most lowT requests fit into
+// the window. Only the verdict is printed (the admitted count depends on the interleaving).
+func (it *Interp) soak(lowT, highT, lowM, highM int64, nreq, flippers int) string {
+	it.soakN++
+	name := fmt.Sprintf("c11-soak-%d", it.soakN)
+	rule := &flow.Rule{Resource: name, TokenCalculateStrategy: flow.MemoryAdaptive, ControlBehavior: flow.Reject,
+		LowMemUsageThreshold: lowT, HighMemUsageThreshold: highT, MemLowWaterMarkBytes: lowM, MemHighWaterMarkBytes: highM}
+	if _, err := flow.LoadRulesOfResource(name, []*flow.Rule{rule}); err != nil {
+		panic(err)
+	}
+	if len(flow.GetRulesOfResource(name)) != 1 {
+		panic("soak rule not in force")
+	}
+	prev := system_metric.CurrentMemoryUsage()
+	vals := []int64{(lowM + highM) / 2, 0, lowM + 1, highM * 100, highM - 1}
+	stop := make(chan struct{})
+	var wg sync.WaitGroup
+	for f := 0; f < flippers; f++ {
+		wg.Add(1)
+		go func(f int) {
+			defer wg.Done()
+			for i := f; ; i++ {
+				select {
+				case <-stop:
+					return
+				default:
+				}
+				system_metric.SetSystemMemoryUsage(vals[i%len(vals)])
+			}
+		}(f)
+	}
+	admitted := int64(0)
+	func() {
+		defer func() {
+			close(stop)
+			wg.Wait()
+			system_metric.SetSystemMemoryUsage(prev)
+			_, _ = flow.LoadRulesOfResource(name, nil)
+		}()
+		for i := 0; i < nreq; i++ {
+			e, blk := sentinel.Entry(name)
+			if blk == nil {
+				admitted++
+				e.Exit()
+			}
+		}
+	}()
+	if admitted > lowT {
+		return fmt.Sprintf("cap=exceeded admitted=%d cap=%d", admitted, lowT)
+	}
+	return "cap=ok"
+}
+
 func (it *Interp) Step(t []string, op string) string {
+	// a trailing q=<ms> on a load selects ControlBehavior Throttling with that MaxQueueingTimeMs
+	behav, maxQ := flow.Reject, uint32(0)
+	if last := t[len(t)-1]; strings.HasPrefix(last, "q=") {
+		behav, maxQ = flow.Throttling, uint32(vh.U(last[2:]))
+		t = t[:len(t)-1]
+	}
 	switch t[0] {
+	case "probe":
+		before := len(it.clk.Sleeps)
+		e, blk := sentinel.Entry(res, sentinel.WithBatchCount(uint32(vh.U(t[1]))))
+		if blk != nil {
+			if blk.BlockType() != base.BlockTypeFlow {
+				panic("blocked by " + blk.BlockType().String())
+			}
+			return "block"
+		}
+		e.Exit()
+		w := int64(0)
+		for _, d := range it.clk.Sleeps[before:] {
+			w += int64(d)
+		}
+		it.clk.Sleeps = it.clk.Sleeps[:0]
+		if w > 0 {
+			return fmt.Sprintf("wait %d", w)
+		}
+		return "pass"
+	case "soak":
+		return it.soak(vh.I(t[1]), vh.I(t[2]), vh.I(t[3]), vh.I(t[4]), int(vh.U(t[5])), int(vh.U(t[6])))
 	case "clock":
 		it.clk.SetMs(vh.U(t[1]))
 		return ""
@@ -59,7 +145,8 @@ func (it *Interp) Step(t []string, op string) string {
 			return it.load(&flow.Rule{
 				Resource:               res,
 				TokenCalculateStrategy: flow.WarmUp,
-				ControlBehavior:        flow.Reject,
+				ControlBehavior:        behav,
+				MaxQueueingTimeMs:      maxQ,
 				Threshold:              thr,
 				WarmUpPeriodSec:        uint32(vh.U(t[3])),
 				WarmUpColdFactor:       uint32(vh.U(t[4])),
@@ -69,7 +156,8 @@ func (it *Interp) Step(t []string, op string) string {
 			return it.load(&flow.Rule{
 				Resource:               res,
 				TokenCalculateStrategy: flow.MemoryAdaptive,
-				ControlBehavior:        flow.Reject,
+				ControlBehavior:        behav,
+				MaxQueueingTimeMs:      maxQ,
 				LowMemUsageThreshold:   vh.I(t[2]),
 				HighMemUsageThreshold:  vh.I(t[3]),
 				MemLowWaterMarkBytes:   vh.I(t[4]),
